@@ -610,6 +610,12 @@ class Dataset(_Handle):
         elif v is not None:
             self.node.value = None
 
+    def read_direct(self, dest, source_sel=None, dest_sel=None):
+        """h5py Dataset.read_direct: fill the caller's buffer with the stored values"""
+        vals = self._value()
+        for i in range(len(vals)):
+            dest[i] = vals[i]
+
     def _value(self):
         v = self.node.value
         if v is None:
